@@ -658,7 +658,7 @@ findEntryAndExitPoints (
 
 template <class T>
 IMATH_HOSTDEVICE IMATH_CONSTEXPR14 bool
-intersects (const Box<Vec3<T>>& b, const Line3<T>& r, Vec3<T>& ip)
+intersects (const Box<Vec3<T>>& b, const Line3<T>& ray, Vec3<T>& ip)
     IMATH_NOEXCEPT
 {
     if (b.isEmpty ())
@@ -668,6 +668,35 @@ intersects (const Box<Vec3<T>>& b, const Line3<T>& r, Vec3<T>& ip)
         //
 
         return false;
+    }
+
+    //
+    // Only the direction of ray.dir matters, not its length.  If all of
+    // its components are smaller than one, scale them up by a power of
+    // two (which is exact) so that the largest is at least one.  The ray
+    // then leaves the slab of that axis at a representable distance, so
+    // tBackMin below is finite, and a plane distance that overflows (and
+    // is replaced by TMAX) really is beyond it.  Without this, two
+    // overflowing distances compared as equal, and a ray whose direction
+    // has only denormal components could be reported to hit a box that
+    // it misses.
+    //
+
+    Line3<T> r (ray);
+
+    {
+        T m = abs (r.dir.x);
+        if (abs (r.dir.y) > m) m = abs (r.dir.y);
+        if (abs (r.dir.z) > m) m = abs (r.dir.z);
+
+        if (m > 0 && m < 1)
+        {
+            int e = 0;
+            std::frexp (m, &e);
+            r.dir.x = std::ldexp (r.dir.x, 1 - e);
+            r.dir.y = std::ldexp (r.dir.y, 1 - e);
+            r.dir.z = std::ldexp (r.dir.z, 1 - e);
+        }
     }
 
     if (b.intersects (r.pos))
